@@ -423,7 +423,7 @@ func (in *Interp) runPath(prefix []Decision) (outcome string, msg string) {
 		case pathEnd:
 			outcome, msg = r.kind, r.msg
 		case unsupportedErr:
-			outcome, msg = "unsupported", r.msg+" @ "+strings.Join(in.stack(), " | ")
+			outcome, msg = "unsupported", r.msg+" @ "+strings.Join(in.errStack, " | ")
 		case targetPanic:
 			outcome = "panic"
 			msg = describe(r.v)
@@ -441,7 +441,7 @@ func (in *Interp) runPath(prefix []Decision) (outcome string, msg string) {
 			if len(gs) > 1800 {
 				gs = gs[:1800] + "…"
 			}
-			msg = fmt.Sprintf("%v @ %s\n%s", r, strings.Join(in.stack(), " | "), gs)
+			msg = fmt.Sprintf("%v @ %s\n%s", r, strings.Join(in.errStack, " | "), gs)
 		}
 	}()
 	in.callSSA(nil, nil, in.ex.entry, nil, nil)
